@@ -4,7 +4,10 @@ import (
 	"context"
 	"encoding/json"
 	"fmt"
+	"os"
+	"os/exec"
 	"sort"
+	"strconv"
 	"strings"
 	"testing"
 
@@ -89,6 +92,7 @@ func checkPure(c pureCase) string {
 	shapes := make([]string, n) // shape + values + ranges: what every re-parse must reproduce
 	firstEval := map[[2]int]evalRecord{}
 	firstFields := map[int]string{}
+	firstBad := map[string]string{}
 	parse := func(i int) string {
 		p := obs.Parse([]byte(texts[i]))
 		if p.Panic != nil {
@@ -177,9 +181,21 @@ func checkPure(c pureCase) string {
 				return m
 			}
 		case "malformed":
-			p := obs.Parse([]byte(texts[i] + " +* ("))
-			if p.Src != nil && len(p.Src.Diagnostics) > 0 {
-				formula.FormatDiagnostic(p.Src, p.Src.Diagnostics[0])
+			// rejected texts: the error (and the formatted first diagnostic) is a function of the text alone
+			for k, bad := range []string{texts[i] + " +* (", "[" + texts[i], "f(" + texts[i] + " 2)", "(" + texts[i] + " ? 1", "g(1 ? " + texts[i] + " ]"} {
+				if (k+a.J)%2 == 1 {
+					continue // a different subset each time, so that the order of first occurrence varies
+				}
+				p := obs.Parse([]byte(bad))
+				desc := fmt.Sprintf("panic=%v err=%v", p.Panic, p.Err)
+				if p.Src != nil && len(p.Src.Diagnostics) > 0 {
+					desc += " | " + formula.FormatDiagnostic(p.Src, p.Src.Diagnostics[0]) + fmt.Sprintf(" | ndiag=%d", len(p.Src.Diagnostics))
+				}
+				key := fmt.Sprintf("%d/%d", i, k)
+				if first, ok := firstBad[key]; ok && first != desc {
+					return fmt.Sprintf("step %d: parsing the malformed text %q reports %s, the first time it reported %s", step+1, bad, desc, first)
+				}
+				firstBad[key] = desc
 			}
 		case "unrelated":
 			if len(c.Unrelated) > 0 {
@@ -380,6 +396,8 @@ func c08Battery() []string {
 	for _, d := range []string{"date(2024,2,29)", "date(2023,14,35)", "t", "addDate(t,0,1,0)", "useTimezone(t,'UTC')", "useTimezone(t,'America/New_York')"} {
 		out = append(out, "[year("+d+"), month("+d+"), day("+d+"), hour("+d+"), minute("+d+"), weekDay("+d+"), millSecond("+d+"), timeFormat("+d+", '2006-01-02T15:04:05Z07:00')]")
 	}
+	// rejected texts (each expects a different token / message): their errors are part of the outcome
+	out = append(out, "[1, 2", "(1 + 2", "f(1 2)", "a ? b", "a.", "'open", "1_", "1e", "a # b", "[1,]", "f(a...b)", "x = ", "a b", "1 +\n", "g(1 ? 2 ]")
 	out = append(out, "fnV(1,2,3)", "fnSV('k', 1, 'a', null)", "fnA([1,[2]])", "fnC(2.5)", "fn0() + 1", "[m.b.c, st.Name, mi.a, arr]", "$q = 2.5, [round($q), roundBank($q), $q]",
 		"typeof ctx", "[1,2,3] , 'x' + 2.50", "i64 + 1", "u64 % 10", "f64 * 3", "[1e400, 1e-400, 5e-324 + 0]", "this.s + this.i")
 	return out
@@ -394,7 +412,7 @@ func checkOrder08(c orderCase) string {
 	eval := func(f string) string {
 		p := obs.Parse([]byte(f))
 		if !p.OK() {
-			return "parse-error"
+			return fmt.Sprintf("parse-error panic=%v err=%v", p.Panic, p.Err)
 		}
 		r := formula.NewRunner()
 		r.SetThis(c08Data(0))
@@ -525,4 +543,114 @@ func TestC08FreshRunners(t *testing.T) {
 		}
 	}
 	run.Exhaustive()
+}
+
+// ---- cross-process order independence --------------------------------------
+
+// batteryOutcome evaluates (or parses) one battery program in this process.
+func batteryOutcome(f string) string {
+	p := obs.Parse([]byte(f))
+	if !p.OK() {
+		return fmt.Sprintf("parse-error panic=%v err=%v", p.Panic, p.Err)
+	}
+	r := formula.NewRunner()
+	r.SetThis(c08Data(0))
+	v, e := outcomeKey(obs.Eval(r, context.Background(), p.Src.Expression))
+	return v + "|" + e
+}
+
+// TestC08ChildBattery is the child side: it evaluates the battery in the order
+// given by VERIF_C08_ORDER (comma separated indices) and prints one line per program.
+func TestC08ChildBattery(t *testing.T) {
+	order := os.Getenv("VERIF_C08_ORDER")
+	if order == "" {
+		t.Skip("child mode only")
+	}
+	bat := c08Battery()
+	for _, fld := range strings.Split(order, ",") {
+		i, err := strconv.Atoi(fld)
+		if err != nil || i < 0 || i >= len(bat) {
+			continue
+		}
+		fmt.Printf("C08OUT\t%d\t%s\n", i, strconv.Quote(batteryOutcome(bat[i])))
+	}
+}
+
+func runChildBattery(order []int) (map[int]string, error) {
+	var parts []string
+	for _, i := range order {
+		parts = append(parts, strconv.Itoa(i))
+	}
+	cmd := exec.Command(os.Args[0], "-test.run", "^TestC08ChildBattery$", "-test.count=1")
+	cmd.Env = append(os.Environ(), "VERIF_C08_ORDER="+strings.Join(parts, ","), "VERIF_OUT=")
+	outb, err := cmd.CombinedOutput()
+	res := map[int]string{}
+	for _, line := range strings.Split(string(outb), "\n") {
+		f := strings.SplitN(line, "\t", 3)
+		if len(f) == 3 && f[0] == "C08OUT" {
+			i, _ := strconv.Atoi(f[1])
+			res[i] = f[2]
+		}
+	}
+	if len(res) == 0 {
+		return nil, fmt.Errorf("child produced no outcomes: %v %s", err, string(outb[:min(len(outb), 300)]))
+	}
+	return res, nil
+}
+
+type crossCase struct {
+	OrderA []int `json:"order_a"`
+	OrderB []int `json:"order_b"`
+}
+
+func checkCross(c crossCase) string {
+	a, errA := runChildBattery(c.OrderA)
+	b, errB := runChildBattery(c.OrderB)
+	if errA != nil || errB != nil {
+		return "" // harness trouble is not a violation
+	}
+	bat := c08Battery()
+	for i, oa := range a {
+		if ob, ok := b[i]; ok && oa != ob {
+			return fmt.Sprintf("%q gives %s in a fresh process that evaluated the battery in one order and %s in a fresh process that used another order: the result depends on what was parsed / evaluated before", bat[i], oa, ob)
+		}
+	}
+	return ""
+}
+
+func init() {
+	h.RegisterReplay("c08-cross", func(raw json.RawMessage) string {
+		c, err := h.Decode[crossCase](raw)
+		if err != nil {
+			return "bad replay: " + err.Error()
+		}
+		return checkCross(c)
+	})
+}
+
+// TestC08CrossProcess: the battery (evaluations and rejected texts) is run in
+// two fresh child processes in different orders; every program must give the
+// same outcome in both. Unlike an in-process repetition this also sees state
+// that is set once, by whichever program happens to come first.
+func TestC08CrossProcess(t *testing.T) {
+	bat := c08Battery()
+	run := h.Begin("C08", "cross-process", fmt.Sprintf("the battery of %d state-sensitive programs and rejected texts is evaluated in two fresh child processes, once in a random order and once in the reverse order (plus a rotated order); oracle: every program's outcome (value, evaluation error or parse error text) is identical in both processes; every program counts as non-trivial", len(bat)))
+	defer run.End(t)
+	h.RapidSetup(h.N(2, 12), "c08cross")
+	rapid.Check(t, func(rt *rapid.T) {
+		perm := rapid.Permutation(seqInts(len(bat))).Draw(rt, "order")
+		rev := make([]int, len(perm))
+		for i, v := range perm {
+			rev[len(perm)-1-i] = v
+		}
+		c := crossCase{OrderA: perm, OrderB: rev}
+		for _, i := range perm {
+			run.CountKey(bat[i], true, "")
+		}
+		run.Sample("battery", bat[perm[0]])
+		if msg := checkCross(c); msg != "" {
+			run.Pending("cross", "c08-cross", c, msg)
+			rt.Fatalf("%s", msg)
+		}
+	})
 }
